@@ -89,7 +89,7 @@ class CloneWithoutRegions(Spec):
             st.seq_store("results", r, res, n)
             regs = arith.as_seq(ex.to_seq_value(kw["regions"], st))
             st.seq_store("regions", r, regs.arr, regs.n)
-            spec.created = r
+            st.ghost["created"] = r  # per-path record
             return [Res("val", VRef(r, "Operation"), st)]
 
         return {"self.create": Builtin(b_create, "Operation.create: TRUSTED allocation contract")}
@@ -123,7 +123,7 @@ class CloneWithoutRegions(Spec):
     def inv(self, n, entry, st, a, lv):
         # for self_result, cloned_result in zip(self.results, cloned_op.results): value_mapper[self_result] = cloned_result
         me, vm = a["_me"], a["_vm"]
-        new = self.created
+        new = st.ghost["created"]
         k = lv["k"]
         j, x, d = z3.Ints("iv!j iv!x iv!d")
         sr = lambda i: entry.seq_el("results", me, i)
